@@ -13,6 +13,7 @@ import Driver.TorusHandlers
 import Driver.MeasHandlers
 import Driver.TxnHandlers
 import Driver.BudHandlers
+import Driver.SerdeHandlers
 open DM
 
 def optIntTok : Option Int → String
@@ -126,6 +127,7 @@ def dispatch (c : Case) : Res :=
   | "torus" => runTorus c
   | "ord" => runOrd c
   | "ded" => runDed c
+  | "sdoc" => runSDoc c
   | k => { status := "DISAGREE", detail := s!"unknown case kind {k}" }
 
 partial def readAll (h : IO.FS.Stream) (acc : Array String) : IO (Array String) := do
